@@ -46,6 +46,8 @@ snippet("gather", "def f(a, idx):\n    return a[idx]", [(A5, ints(0, 4, 4, -1, 2
 snippet("gather2d", "def f(a, s):\n    return a[s[:, None] + np.arange(2)].ravel()", [(A6, ints(0, 3, 4))])
 snippet("mask", "def f(a):\n    return a[a > 1]", [(A5,), (ints(0, 0),), (ints(),)], exact=False)
 snippet("flatnonzero", "def f(a):\n    return np.flatnonzero(a == 2)", [(A6,), (ints(1, 3),), (ints(2, 2, 2),)], exact=False)
+snippet("mask-concat", "def f(a, b):\n    v = a[1:] > b[:-1]\n    s = np.concatenate(([True], v))\n    e = np.concatenate((v, [True]))\n    return np.concatenate([a[s], b[e]])",
+        [(ints(1, 2, 5, 9), ints(3, 4, 6, 9)), (ints(1, 2), ints(0, 0)), (ints(4,), ints(7,))], exact=False)
 snippet("count_nonzero", "def f(a):\n    return np.count_nonzero(a > 2)", [(A5,), (ints(),)], exact=False)
 snippet("cumsum", "def f(a):\n    return np.insert(np.cumsum(a), 0, 0)", [(A5,), (ints(),), (ints(4),)])
 snippet("sum", "def f(a):\n    return a.sum() + np.sum(a)", [(A5,), (ints(),)], exact=False)
@@ -186,6 +188,7 @@ def run_one(name, src, args, exact=True, timeout_ms=5000):
 def run_all(limit_per_snippet=None):
     """-> (cases run, list of mismatch descriptions)"""
     n, bad = 0, []
+    solve.ROUNDS_OVERRIDE = None          # (a contract may have left its own instantiation depth behind)
     for name, src, inputs, exact in SNIPPETS:
         for args in (inputs if limit_per_snippet is None else inputs[:limit_per_snippet]):
             n += 1
